@@ -215,6 +215,8 @@ type c08relFx struct {
 	shares  map[int]tbls.PrivateKey
 	msgs    [2][]byte
 	sigs    map[string]tbls.Signature
+	reuse   bool   // the caller hands every message in ONE buffer of its own that it overwrites before the next call
+	buf     []byte // that buffer
 }
 
 type c08rel struct {
@@ -306,14 +308,23 @@ func (h *c08rel) call(fx *c08relFx, q c08q) (accepted bool, err error) {
 		return false, err
 	}
 	h.x.e.steps++
+	msg := fx.msgs[q.Msg]
+	if fx.reuse {
+		// a caller that keeps one message buffer: the library must not remember the slice it was handed
+		if fx.buf == nil {
+			fx.buf = make([]byte, 0, len(fx.msgs[0])+len(fx.msgs[1])+1)
+		}
+		fx.buf = append(fx.buf[:0], msg...)
+		msg = fx.buf
+	}
 	if q.Fn == "V" {
-		return tbls.Verify(fx.pk[q.Keys[0]], fx.msgs[q.Msg], s) == nil, nil
+		return tbls.Verify(fx.pk[q.Keys[0]], msg, s) == nil, nil
 	}
 	var pks []tbls.PublicKey
 	for _, k := range q.Keys {
 		pks = append(pks, fx.pk[k])
 	}
-	return tbls.VerifyAggregate(pks, s, fx.msgs[q.Msg]) == nil, nil
+	return tbls.VerifyAggregate(pks, s, msg) == nil, nil
 }
 
 // ---- histories ---------------------------------------------------------------------------------------------
@@ -323,10 +334,15 @@ type c08relCase struct {
 	Pair    c08relPair `json:"messages"`
 	Variant string     `json:"variant"`
 	History []string   `json:"history"` // query names, in call order
+	Buffers string     `json:"buffers,omitempty"` // "reuse": every message is handed over in one caller-owned buffer, overwritten between the calls
 }
 
 func (c c08relCase) String() string {
-	return fmt.Sprintf("%s; keys %s; calls in one process: %s", c.Pair, c.Variant, strings.Join(c.History, " -> "))
+	b := ""
+	if c.Buffers != "" {
+		b = "; message buffers: " + c.Buffers
+	}
+	return fmt.Sprintf("%s; keys %s%s; calls in one process: %s", c.Pair, c.Variant, b, strings.Join(c.History, " -> "))
 }
 
 // play runs the history on a fresh fixture and returns the index of the first call whose verdict differs from the
@@ -336,6 +352,7 @@ func (h *c08rel) play(c c08relCase) (bad int, accepted bool, harness string) {
 	if err != nil {
 		return -1, false, err.Error()
 	}
+	fx.reuse = c.Buffers == "reuse"
 	for i, name := range c.History {
 		qi := c08queryIndex(name)
 		if qi < 0 {
@@ -384,6 +401,9 @@ func (h *c08rel) classify(c c08relCase, bad int, accepted bool) (sig, desc strin
 		fn = "VerifyAggregate"
 	}
 	sig = fmt.Sprintf("dim=callhist fn=%s kind=%s rel=%s history=%s", fn, kind, c.Pair.Rel, hist)
+	if c.Buffers != "" {
+		sig += " buffers=" + c.Buffers
+	}
 	verdict := "refused"
 	if accepted {
 		verdict = "accepted"
@@ -440,6 +460,7 @@ func c08relUnits(thorough bool) (units []c08relUnit) {
 	for _, p := range pairs {
 		units = append(units, c08relUnit{p, "pairs", varPlain, 2, 0, all})
 		units = append(units, c08relUnit{p, "pairs-threshold", varThreshold, 2, 0, c08nV})
+		units = append(units, c08relUnit{p, "pairs-reusedbuffer", varPlain, 2, 0, all})
 		if thorough || core[p] {
 			units = append(units, c08relUnit{p, "triples-V", varPlain, 3, 0, c08nV})
 			units = append(units, c08relUnit{p, "triples-VA", varPlain, 3, c08nV, all})
@@ -466,6 +487,9 @@ func (h *c08rel) relUnit(u c08relUnit) {
 			return
 		}
 		c := c08relCase{Dim: "callhist", Pair: u.pair, Variant: u.variant}
+		if u.part == "pairs-reusedbuffer" {
+			c.Buffers = "reuse"
+		}
 		for i, v := 0, code; i < u.length; i, v = i+1, v/n {
 			c.History = append(c.History, c08queries[u.lo+v%n].Name)
 		}
